@@ -73,6 +73,15 @@ def run_group(ctx, exe, scns, nranks, cores, tag, timeout=300, env=None, mpi_ext
             # the group died or hung in (or before) this scenario
             started = any(k in by for by in per_rank)
             if not started:
+                if rc in (3, 4, 5):
+                    raise RuntimeError("op_run input / initialisation error rc=%s: %s" % (rc, err[-300:]))
+                if rc != 0:
+                    # every earlier scenario completed on every rank, then the group hung / died before this one was
+                    # announced (between the `done` record and the next `scn` record: matrix and taskpool release, barrier)
+                    ex.append({"e": "Timeout" if rc == "timeout" else "Crash", "rc": str(rc), "ranks_done": 0,
+                               "where": "after scenario %d completed, before this one started" % (k - 1),
+                               "stderr": err[-300:]})
+                    exs.append(ex)
                 break
             ex.append({"e": "Timeout" if rc == "timeout" else "Crash", "rc": str(rc), "ranks_done": done,
                        "stderr": err[-300:]})
@@ -132,10 +141,10 @@ def run(ctx):
               ("r4c1", 4, 1, shapes(rng, nm, big, [(2, 2)]))]
     # many SHORT columns (a 1 x N tile row): the threads claim the next column of map_operator.c (next_n) thousands of
     # times per run, several of them at the same moment; visits are counted in memory, one summary per run
-    nwide, rounds = (4000, 4) if ctx.quick else (20000, 10)
+    nwide, rounds = (4000, 6) if ctx.quick else (20000, 12)
     wide = {"op": "mapcount", "uplo": "full", "mt": 1, "nt": nwide, "mb": 1, "P": 1, "Q": 1, "kp": 1, "kq": 1}
     groups += [("r1c4w", 1, 4, [dict(wide, nt=nwide + 37 * k) for k in range(rounds)]),
-               ("r2c3w", 2, 3, [dict(wide, nt=nwide + 37 * k, Q=2, kq=1 + k % 2) for k in range(rounds - 1)])]
+               ("r2c3w", 2, 3, [dict(wide, nt=nwide + 37 * k, Q=2, kq=1 + k % 2) for k in range(rounds - 2)])]
     if not ctx.quick:
         groups += [("r1c8", 1, 8, shapes(rng, n1, big, [(1, 1)])),
                    ("r3c2", 3, 2, shapes(rng, nm, big, [(3, 1), (1, 3)])),
@@ -158,7 +167,8 @@ def run(ctx):
     exs = []
     for tag, nr, cores, scns in groups:
         # Open MPI pins each of 2 ranks to one core by default: the threads of the wide runs must really run in parallel
-        got = run_group(ctx, exe, scns, nr, cores, tag, timeout=600, mpi_extra=("--bind-to", "none") if tag.endswith("w") else ())
+        wd = tag.endswith("w")
+        got = run_group(ctx, exe, scns, nr, cores, tag, timeout=150 if wd else 600, mpi_extra=("--bind-to", "none") if wd else ())
         exs.extend(got)
         ctx.extra["runs_" + tag] = len(got)
     for t in th:
